@@ -32,6 +32,8 @@ void refresh_group(World& w, const DeclH& h)
       if (auto r = w.rec_for(static_cast<const Node*>(d))) r->exp("master", N(*group.front())).exp("decl_set", Val::list(xs));
 }
 
+void decl_fill(World& w, const DeclH h, const Op& op);
+
 void op_DECL(World& w, const Op& op)
 {
    const std::size_t si = op.b % w.scopes.size();
@@ -43,6 +45,7 @@ void op_DECL(World& w, const Op& op)
    const Expr* alias_init = nullptr;
    if (kind == 5 && w.functions.empty()) kind = 1;
    if (kind >= 6 && w.foralls.empty()) kind = 1;
+   if (w.flags.complete_decls && ((kind == 5 && w.plists.empty() && w.mappings.empty()) || (kind >= 6 && w.mappings.empty()))) kind = 1;   // nothing to complete it with yet
    switch (kind) {
    case 0:
       alias_init = small ? w.typed_exprs[op.d % std::min<std::size_t>(8, w.typed_exprs.size())] : World::pick(w.typed_exprs, op.d);
@@ -185,6 +188,14 @@ void op_DECL(World& w, const Op& op)
    w.add_stmt(sh);
    w.add_expr(*decl, true);
    w.note(factory);
+   if (w.flags.complete_decls) {
+      // printable programs: give the declaration at once the parts without which a printer must refuse it
+      Op f = op;
+      f.a = kind == 3 ? 8 : (kind == 5 ? 6 : (kind >= 6 ? 7 : 255));
+      f.c = op.f;
+      f.d = op.e;
+      if (f.a != 255) decl_fill(w, h, f);
+   }
 }
 
 template<class F>
@@ -203,6 +214,8 @@ bool with_decl(const DeclH& h, F f)
    return false;
 }
 
+void decl_fill(World& w, const DeclH h, const Op& op);
+
 void op_DECL_FILL(World& w, const Op& op)
 {
    if (w.flags.fill_at_creation) return;
@@ -210,7 +223,11 @@ void op_DECL_FILL(World& w, const Op& op)
    for (std::size_t i = 0; i < w.decls.size(); ++i)
       if (w.decls[i].kind <= 7) real.push_back(int(i));
    if (real.empty()) return;
-   const DeclH h = w.decls[World::pick(real, op.b)];
+   decl_fill(w, w.decls[World::pick(real, op.b)], op);
+}
+
+void decl_fill(World& w, const DeclH h, const Op& op)
+{
    auto rec = w.rec_for(static_cast<const Node*>(h.decl));
    switch (op.a % 9) {
    case 0: {   // specifiers
@@ -437,7 +454,7 @@ void op_SPREAD(World& w, const Op& op)
    Rec& r = w.record_node("make_specifiers_spread", *d, Category_code::Specifiers_spread);
    r.exp("specifiers", U(0)).exp("targets", Val::list({})).exp("phases", U(std::uint64_t(Phases::Elaboration))).exp("type", Val::throws());
    w.spreads.push_back(d);
-   if (w.flags.fill_at_creation || op.a % 2) {
+   if (w.flags.fill_at_creation || w.flags.complete_decls || op.a % 2) {
       const unsigned bits = (op.b | (op.c << 8)) & 0x3ffff;
       d->specs = Specifiers{bits};
       auto& t = *World::pick(w.types, op.d);
@@ -461,7 +478,7 @@ void op_SBIND(World& w, const Op& op)
       .exp("type", Val::throws());
    r.mutable_container = true;
    w.sbindings.push_back(d);
-   if (w.flags.fill_at_creation || op.a % 2) {
+   if (w.flags.fill_at_creation || w.flags.complete_decls || op.a % 2) {
       auto& e = *World::pick(w.exprs, op.b);
       d->init = &e;
       d->binding_mode = Binding_mode{std::uint8_t(op.c % 3)};
